@@ -5,16 +5,16 @@ CONSTANTS
   MaxCrashes = 2
   Proposer = {0}
   EndHeight0IntoEmptyHead = TRUE
-  ShortTornUndetected = TRUE
+  ShortTornUndetected = FALSE
   Weak_ReleaseBeforeSave = FALSE
   Weak_CheckHRSIgnoresStep = FALSE
-  Weak_SameHRSResigns = TRUE
+  Weak_SameHRSResigns = FALSE
   Weak_TimestampOnlyComparesNothing = FALSE
   Weak_LoadResetsState = FALSE
   Weak_NoFlushBeforeSign = FALSE
 INIT SCInit
 NEXT SCNext
 INVARIANTS NoConflictingRelease
-PROPERTIES PersistBeforeRelease HRSMonotone
+PROPERTIES NoSelfLockout
 VIEW SCView
 CHECK_DEADLOCK FALSE
